@@ -701,6 +701,20 @@ func (c *DnsController) cacheKey(qname string, qtype uint16) string {
 	return qname + strconv.Itoa(int(qtype))
 }
 
+// questionCacheKey is cacheKey for the question of a client query. The response
+// cache - its keys, its pre-packed replies, the domain-routing side effects of
+// an entry - is about class IN. A question of another class (CH TXT
+// version.bind., ...) gets a key of its own, so that it is neither coalesced
+// with nor answered from the IN entry for the same name and type, and its
+// answer is not cached (NormalizeAndCacheDnsResp_).
+func (c *DnsController) questionCacheKey(q dnsmessage.Question) string {
+	key := c.cacheKey(q.Name, q.Qtype)
+	if q.Qclass != dnsmessage.ClassINET {
+		key += "#" + strconv.Itoa(int(q.Qclass))
+	}
+	return key
+}
+
 func dnsCacheBaseKey(cacheKey string) string {
 	if before, _, ok := strings.Cut(cacheKey, "|"); ok {
 		return before
@@ -1585,6 +1599,10 @@ func (c *DnsController) NormalizeAndCacheDnsResp_(msg *dnsmessage.Msg, responseC
 	}
 
 	q := msg.Question[0]
+	// The response cache is class IN only (see questionCacheKey).
+	if q.Qclass != dnsmessage.ClassINET {
+		return nil
+	}
 
 	// Get TTL.
 	var ttl uint32
@@ -2289,7 +2307,7 @@ func (c *DnsController) HandleWithResponseWriter_(ctx context.Context, dnsMessag
 		q := dnsMessage.Question[0]
 		qname = q.Name
 		qtype = q.Qtype
-		baseCacheKey = c.cacheKey(qname, qtype)
+		baseCacheKey = c.questionCacheKey(q)
 	}
 
 	// Route request first, then check cache.
@@ -2505,7 +2523,11 @@ func (c *DnsController) handleWithResponseWriter_(
 	}
 
 	if baseCacheKey == "" {
-		baseCacheKey = c.cacheKey(qname, qtype)
+		if len(dnsMessage.Question) != 0 {
+			baseCacheKey = c.questionCacheKey(dnsMessage.Question[0])
+		} else {
+			baseCacheKey = c.cacheKey(qname, qtype)
+		}
 	}
 	if responseCacheKey == "" {
 		responseCacheKey = c.responseCacheKey(baseCacheKey, req, upstreamIndex, upstream)
